@@ -5,6 +5,7 @@ import (
 	"fmt"
 	"math/big"
 	"math/rand"
+	"reflect"
 	"sort"
 	"strings"
 	"testing"
@@ -239,6 +240,7 @@ type scenario struct {
 	fees    map[int]*big.Int    // id -> multiplier on chain-a
 	feesB   map[int]bool        // has a fee record for chain-b only (no chain-a entry)
 	weights *[5]*big.Int        // nil = unset (defaults)
+	wSet, wAccepted, wRaw bool  // filled by install: SetRelayWeights was tried / accepted them / they were written raw through the hook
 	ts      int64
 	req     int // 0 nil, 1 false, 2 true
 	chain   string
@@ -329,10 +331,22 @@ func genScenario(r *rand.Rand, np int, hostile bool) *scenario {
 	if hostile && r.Intn(5) == 0 {
 		// weights a RelayWeightsProposal may set (no validation): near the LegacyDec limit the weighted sum overflows
 		w := [5]*big.Int{}
+		mode := r.Intn(3) // 0: near the LegacyDec limit, 1: around the bound of the validation, 2: a negative one
 		for i := range w {
-			w[i] = new(big.Int).Mul(new(big.Int).Exp(bi(10), bi(int64(74+r.Intn(4))), nil), e18)
-			if r.Intn(4) == 0 {
-				w[i] = new(big.Int).Set(e18)
+			w[i] = new(big.Int).Set(e18)
+			switch mode {
+			case 0:
+				if r.Intn(4) != 0 {
+					w[i] = new(big.Int).Mul(new(big.Int).Exp(bi(10), bi(int64(74+r.Intn(4))), nil), e18)
+				}
+			case 1:
+				if r.Intn(2) == 0 {
+					w[i] = new(big.Int).Add(new(big.Int).Mul(bi(1000000), e18), bi(int64(r.Intn(3)-1)))
+				}
+			default:
+				if r.Intn(3) == 0 {
+					w[i] = new(big.Int).Neg(new(big.Int).Rand(r, new(big.Int).Mul(e18, bi(2))))
+				}
 			}
 		}
 		sc.weights = &w
@@ -400,10 +414,22 @@ func (sc *scenario) install(t *testing.T, e *env, p *pool) {
 	}
 	if sc.weights != nil {
 		w := sc.weights
-		if err := e.evm.SetRelayWeights(e.ctx, sc.chain, &evmtypes.RelayWeights{
+		rw := &evmtypes.RelayWeights{
 			Fee: dec(w[0]).String(), Uptime: dec(w[1]).String(), SuccessRate: dec(w[2]).String(), ExecutionTime: dec(w[3]).String(), FeatureSet: dec(w[4]).String(),
-		}); err != nil {
-			t.Fatal(err)
+		}
+		// the setter validates (C09 repair): what it refuses is written the way older code stored it, through C09's hook
+		sc.wSet = true
+		if err := e.evm.SetRelayWeights(e.ctx, sc.chain, rw); err == nil {
+			sc.wAccepted = true
+		} else {
+			m := reflect.ValueOf(*e.evm).MethodByName("VerifC09StoreRelayWeights")
+			if !m.IsValid() {
+				t.Fatalf("SetRelayWeights refused %v and the raw-weights hook is missing: %v", rw, err)
+			}
+			if out := m.Call([]reflect.Value{reflect.ValueOf(context.Context(e.ctx)), reflect.ValueOf(sc.chain), reflect.ValueOf(rw)}); !out[0].IsNil() {
+				t.Fatal(out[0].Interface())
+			}
+			sc.wRaw = true
 		}
 	} else if sc.ts%3 == 0 {
 		if err := e.evm.SetRelayWeights(e.ctx, sc.chain, nil); err != nil { // nil weights => ValueOrDefault
@@ -594,6 +620,22 @@ func rowsCoq(rs []qrow) string {
 func doPick(t *testing.T, run *emit.Run, p *pool, sc *scenario, tag string) {
 	e := newEnv(t, 5, sc.ts)
 	sc.install(t, e, p)
+	if sc.wSet {
+		maxW := new(big.Int).Mul(bi(1000000), e18)
+		inRange := true
+		var ws []string
+		for _, x := range sc.weights {
+			if x.Sign() < 0 || x.Cmp(maxW) > 0 {
+				inRange = false
+			}
+			ws = append(ws, emit.Z(x))
+		}
+		if inRange != sc.wAccepted {
+			run.Violate("C14:weights-validation", fmt.Sprintf("SetRelayWeights accepted=%v for weights %v (each must be a decimal in [0, 10^6])", sc.wAccepted, ws), map[string]any{"kind": "weights", "weights": ws})
+		}
+		run.Count("weights", map[bool]string{true: "accepted", false: "refused, written raw through the hook"}[sc.wAccepted])
+		run.Case(fmt.Sprintf("C14.CWeights %s %s", emit.Pair(ws...), emit.Bool(sc.wAccepted)), true, nil)
+	}
 	sn, ms, fs, w := sc.coqInputs(t, e, p)
 	replay := map[string]any{"kind": "pick", "scenario": fmt.Sprintf("%+v", *sc), "snapshot": sn, "metrics": ms, "fees": fs, "weights": w, "ts": sc.ts, "req": sc.req, "chain": sc.chain}
 
@@ -614,6 +656,9 @@ func doPick(t *testing.T, run *emit.Run, p *pool, sc *scenario, tag string) {
 	case panicked:
 		got = "PickPanic"
 		run.Count("pick", "panic")
+		if sc.ts >= 0 && !sc.wRaw {
+			run.Violate("C14:ranking-panic-with-validated-weights", "the pick panicked although the relay weights are the defaults or went through SetRelayWeights", replay)
+		}
 	case err != nil:
 		got = fmt.Sprintf("(PickErr %d)", errCode(err))
 		run.Count("pick", fmt.Sprintf("err%d", errCode(err)))
